@@ -291,6 +291,16 @@ func runSASibling(c *load.Ctx, r *report.RuleResult, rel, ctor, typ string, maxD
 		for b := 0; b < 256; b++ {
 			nref, evR, rejR := ps.ref.Step(byte(b))
 			if rejR {
+				// JSight adds syntax between tokens, not inside a string: what RFC 8259 refuses inside a
+				// string token (a raw control byte, an unknown escape, a non-hex digit after \u) the
+				// scanner must refuse as well — the text is later decoded and re-emitted as JSON
+				if ps.ref.InString() {
+					ir := m.Feed(ps.impl, b)
+					transitions++
+					if ir.Kind == "ok" {
+						bad("string-verdict", ps, fmt.Sprintf("%q", string([]byte{byte(b)})), "inside a string the scanner accepts a byte that RFC 8259 does not admit there")
+					}
+				}
 				continue
 			}
 			if enumMode {
